@@ -172,10 +172,20 @@ class ColumnProfile:
         new_profile.missing += profile.missing
         new_profile.transitions += profile.transitions + 1
         new_profile.order = 0 if new_profile.order == profile.order else new_profile.order
-        new_profile.minimum = min([self.minimum or INFINITY, profile.minimum or INFINITY])
+        new_profile.minimum = min(
+            [
+                INFINITY if self.minimum is None else self.minimum,
+                INFINITY if profile.minimum is None else profile.minimum,
+            ]
+        )
         if new_profile.minimum == INFINITY:
             new_profile.minimum = None
-        new_profile.maximum = max([self.maximum or -INFINITY, profile.maximum or -INFINITY])
+        new_profile.maximum = max(
+            [
+                -INFINITY if self.maximum is None else self.maximum,
+                -INFINITY if profile.maximum is None else profile.maximum,
+            ]
+        )
         if new_profile.maximum == -INFINITY:
             new_profile.maximum = None
 
